@@ -45,4 +45,48 @@ SumSizes(S) == IF S = {} THEN 0 ELSE LET s == CHOOSE x \in S : TRUE IN s.size + 
 Placed(segs, body) ==
     /\ \A s \in segs : s.offset = SumSizes({t \in segs : Rank(t.name) < Rank(s.name)})
     /\ body = SumSizes(segs)
+
+(*************************** mesh object life cycle ************************)
+(* A MeshAsset lives through: built by hand -> serialised -> parsed (with or  *)
+(* without keeping the raw bytes of every segment, include_raw_segments) ->   *)
+(* edited -> serialised again -> ...  The content of a segment is abstracted  *)
+(* to a version number (0 = as built, +1 per edit).  A parse that keeps raw   *)
+(* segments leaves a second, byte-level copy of every segment in the object;  *)
+(* after an edit that copy is STALE.  A segment whose parsed form was removed *)
+(* from the object is represented by its raw copy alone.                      *)
+(* Law: what Serialize writes is the CURRENT model in every state -- an edit  *)
+(* is never lost, whatever copies the object still carries.                   *)
+CONSTANTS Segs,        \* segments of the modelled mesh
+          MaxEdits,    \* edits per segment
+          PreferRaw    \* FALSE: the parsed form wins over the raw copy (the code); TRUE: the raw copy wins
+VARIABLES mode,        \* "built" | "parsed" | "parsedRaw": how the current object came to be
+          cur,         \* segment -> version of the current model's content
+          dropped,     \* segments whose parsed form was removed (only the raw copy is left)
+          raw,         \* segment -> version held by the raw copy, -1 if there is none
+          wire,       \* segment -> version in the last serialisation, -1 before the first
+          want         \* ghost: the model at the moment of the last serialisation
+mvars == <<mode, cur, dropped, raw, wire, want>>
+None == [s \in Segs |-> -1]
+MInit0 == /\ mode = "built" /\ cur = [s \in Segs |-> 0] /\ dropped = {} /\ raw = None /\ wire = None /\ want = None
+Edit(s) == /\ s \notin dropped /\ cur[s] < MaxEdits
+           /\ cur' = [cur EXCEPT ![s] = @ + 1]
+           /\ UNCHANGED <<mode, dropped, raw, wire, want>>
+\* the parsed form of s is taken out of the object; its raw copy now IS the segment
+Drop(s) == /\ raw[s] # -1 /\ s \notin dropped
+           /\ dropped' = dropped \cup {s} /\ cur' = [cur EXCEPT ![s] = raw[s]]
+           /\ UNCHANGED <<mode, raw, wire, want>>
+Written(s) == IF s \in dropped THEN raw[s]
+              ELSE IF PreferRaw /\ raw[s] # -1 THEN raw[s] ELSE cur[s]
+SerializeMesh == /\ wire' = [s \in Segs |-> Written(s)] /\ want' = cur
+             /\ UNCHANGED <<mode, cur, dropped, raw>>
+\* the last serialisation is parsed; the result replaces the object
+Reparse(keepRaw) == /\ wire # None
+                    /\ cur' = wire /\ dropped' = {}
+                    /\ raw' = IF keepRaw THEN wire ELSE None
+                    /\ mode' = IF keepRaw THEN "parsedRaw" ELSE "parsed"
+                    /\ UNCHANGED <<wire, want>>
+MNext0 == (\E s \in Segs : Edit(s) \/ Drop(s)) \/ SerializeMesh \/ (\E k \in BOOLEAN : Reparse(k))
+\* parse(serialise(m)) = m for the current model m, in every state
+Faithful == wire = None \/ wire = want
+RawIsACopy == \A s \in Segs : (mode # "parsedRaw" => raw[s] = -1) /\ (s \in dropped => raw[s] = cur[s])
 =============================================================================
